@@ -371,9 +371,9 @@ class BstrField(CborField):
             return None
 
     def m2i(self, pkt, x):
-        if isinstance(x, (int, list, tuple)):
-            # bytes() of an integer is a zero-filled string and of an
-            # integer list is the octet for each, neither is a conversion
+        if not isinstance(x, (bytes, bytearray, memoryview)):
+            # bytes() accepts much more, e.g. an integer gives a zero-filled
+            # string, an integer list the octet for each, an empty map b''
             return None
         try:
             return bytes(x)
